@@ -233,7 +233,13 @@ package varmq
 // waiters) -> the node is given back -> the in-flight count drops -> barrier waiters are released if appropriate -> Completed+1 -> the
 // dispatcher is signalled. The signal comes after the decrement (otherwise the dispatcher may see no free slot and sleep: lost wake-up).
 //@ func worker.initPoolNode$1
-//@   props C01 C03 C05 C06 C11 C16 C17 C18 CORE
+//@   props C01 C03 C05 C06 C11 C16 C17 C18 CORE C06@B2 C01@B2 C02@B2
+// B2-lite: other pool goroutines finish jobs at the same moment. The in-flight count handed to releaseWaiters must be the value returned by
+// this goroutine's own atomic decrement: of two jobs finishing together exactly one then sees zero and releases the barrier waiters. A
+// count read before the decrement (or after it) is stale -- both finishers may compute "one left" and nobody broadcasts.
+//@   ghost entry: $rem := 0 - 1
+//@   ghost after call sync/atomic.Uint32.Add: $rem := result
+//@   assert [b2-release-own-dec] before call varmq.worker.releaseWaiters: arg1 == $rem
 //@   requires $deref(w) != nil && PoolOK($deref(w)) && QM($deref(w)) && $deref(w).pool.List.len < MaxUint32 && NodeFree($deref(node)) && $deref(w).metrics != nil && $deref(w).waiters != nil
 //@   requires $deref(w).workerFunc != nil && $deref(w).curProcessing >= 1 && ChanOK($deref(w).errorChan) && ChanOK($deref(w).eventLoopSignal)
 //@   requires $deref(w).Configs.minIdleWorkerRatio <= 100 && $deref(w).Configs.idleWorkerExpiryDuration >= 0 && $deref(w).concurrency * $deref(w).Configs.minIdleWorkerRatio <= MaxUint32
